@@ -3,7 +3,7 @@ Building objects through the public API (`create`, `sections.add`, `segments.add
 `add_section_index`) and `elfio::save(std::ostream&)`: segment ordering, the three layout
 passes, and the stream writes.  Layout arithmetic is the generated code (Gen/SitesWriter.lean).
 -/
-import ElfioVerif.Model.Obj
+import ElfioVerif.Model.Load
 import ElfioVerif.Model.OStream
 import ElfioVerif.Gen.SitesWriter
 namespace ElfioVerif
@@ -292,9 +292,20 @@ def layoutLoose (c : Cls) (segs : List Seg) : List SecBuf → Nat → BitVec 64 
 def saveSection (c : Cls) (enc : Enc) (shoff : BitVec 64) (shentsize : BitVec 16) (os : OStream) (b : SecBuf) : OStream :=
   let hp : Int := shoff.toInt + (Int.ofNat shentsize.toNat) * (Int.ofNat b.index)
   let os := (os.adjust hp).write (encodeShdr c enc b)
+  -- `b` is the section after the `get_data()` that `section_impl::save` performs
   if b.stype != BitVec.ofNat 32 SHT_NOBITS && b.stype != BitVec.ofNat 32 SHT_NULL && b.size != 0 && b.data.isSome then
     (os.adjust b.offset.toInt).write ((b.data.getD []).take b.size.toNat)
   else os
+
+/-- the `get_data()` calls of `save_sections` (they make lazily loaded data resident); the data
+    request only happens for sections that would be written -/
+def residentForSave (c : Cls) (tr : List Trans) : List SecBuf → LoadSt → List SecBuf → List SecBuf × LoadSt
+  | [], ls, acc => (acc.reverse, ls)
+  | b :: rest, ls, acc =>
+    if b.stype != BitVec.ofNat 32 SHT_NOBITS && b.stype != BitVec.ofNat 32 SHT_NULL && b.size != 0 then
+      let (ls, b) := secGetData c tr ls b
+      residentForSave c tr rest ls (b :: acc)
+    else residentForSave c tr rest ls (b :: acc)
 
 def saveSegment (c : Cls) (enc : Enc) (phoff : BitVec 64) (phentsize : BitVec 16) (os : OStream) (g : Seg) : OStream :=
   let hp : Int := phoff.toInt + (Int.ofNat phentsize.toNat) * (Int.ofNat g.index)
@@ -347,6 +358,8 @@ def save (o : Obj) (os : OStream) : M SaveRes := do
     let o := { o with hdr := some h, secs := secs, segs := segs, curPos := pos }
     if os.fail then pure { obj := o, os := os, ok := false } else
     let shoff := Hdr.e_shoff c e h
+    let (secs, ls) := residentForSave c o.trans secs { st := o.stream } []
+    let o := { o with secs := secs, stream := ls.st }
     let os := secs.foldl (saveSection c e shoff (Hdr.e_shentsize c e h)) os
     let os := segs.foldl (saveSegment c e (Hdr.e_phoff c e h) (Hdr.e_phentsize c e h)) os
     pure { obj := o, os := os, ok := !os.fail }
